@@ -56,7 +56,9 @@ func polQuantityOracle(c *runCtx, in polPassIn, cs *polCase, desc string) {
 
 type polDone struct{ done []int }
 
-func (d *polDone) SubmitSuccessfulReplication(n netmap.NodeInfo) { d.done = append(d.done, polNodeID(n)) }
+func (d *polDone) SubmitSuccessfulReplication(n netmap.NodeInfo) {
+	d.done = append(d.done, polNodeID(n))
+}
 
 func polParseDots(s string) []int {
 	if s == "-" {
